@@ -66,9 +66,42 @@ Definition ds_tagged (ts : list string) (ds : docset) : overlay := ds_filtered (
 Definition ds_as_one (ds : docset) : overlay := ds_filtered (fun _ => true) ds.
 Definition ds_named (name : string) (ds : docset) : option node := option_map fst (ctx_get name (ds_ctx ds)).
 
+(* ---------- batch adds (AddDocumentsFromDirectory / AddDocumentsFromManifest / AddPropertiesFromManifest) *)
+(* AddDocumentsFromDirectory(pattern, decProv, opts...): the files matched by the pattern, in glob order, each paired with
+   what its decoder makes of it (None: the file cannot be opened or decoded).  Every file goes through AddDocumentFromFile
+   under its own path; the FIRST failure ends the call with that error, the adds made before it stay. *)
+Fixpoint ds_add_files (files : list (string * option node)) (tags : list string) (pol : policy) (ds : docset)
+  : docset * bool :=
+  match files with
+  | [] => (ds, true)
+  | (_, None) :: _ => (ds, false)
+  | (name, Some d) :: r =>
+      let '(ds', ok) := ds_add name d tags pol ds in
+      if ok then ds_add_files r tags pol ds' else (ds', false)
+  end.
+
+(* AddDocumentsFromManifest(manifest, decProv, opts...): the text items of the manifest in List() order, each registered as
+   "<manifest>/<item>"; an item that does not decode, or whose add is refused, is SKIPPED (the error is dropped) *)
+Definition item_name (manifest item : string) : string := (manifest ++ "/" ++ item)%string.
+Definition ds_add_items (manifest : string) (items : list (string * option node)) (tags : list string) (pol : policy)
+  (ds : docset) : docset :=
+  fold_left (fun acc it => match snd it with
+                           | Some d => fst (ds_add (item_name manifest (fst it)) d tags pol acc)
+                           | None => acc
+                           end) items ds.
+
+(* AddPropertiesFromManifest(manifest, opts...): ONE document under the manifest's path: every text item is a property,
+   its name a dotted path (k8s.DecodeEmbeddedProps: AddValueAt(item, text) in List() order) *)
+Definition props_doc (items : list (string * string)) : node :=
+  Con (fold_left (fun kvs it => add_value_at (fst it) (Leaf (SStr (snd it))) kvs) items []).
+
 Inductive dsop :=
 | DAdd (name : string) (doc : node) (tags : list string) (pol : policy)
 | DAddUnnamed (doc : node) (tags : list string) (pol : policy)
+| DAddFiles (files : list (string * option node)) (tags : list string) (pol : policy)
+(* None: the manifest itself does not load *)
+| DAddItems (manifest : string) (items : option (list (string * option node))) (tags : list string) (pol : policy)
+| DAddProps (manifest : string) (items : option (list (string * string))) (tags : list string) (pol : policy)
 | DTagged (ts : list string)
 | DAsOne
 | DNamed (name : string).
@@ -83,6 +116,12 @@ Definition ds_step (ds : docset) (o : dsop) : docset * dsobs :=
   match o with
   | DAdd name doc tags pol => let '(ds', ok) := ds_add name doc tags pol ds in (ds', DObsOk ok)
   | DAddUnnamed doc tags pol => let '(ds', ok) := ds_add_unnamed doc tags pol ds in (ds', DObsOk ok)
+  | DAddFiles files tags pol => let '(ds', ok) := ds_add_files files tags pol ds in (ds', DObsOk ok)
+  | DAddItems manifest (Some items) tags pol => (ds_add_items manifest items tags pol ds, DObsOk true)
+  | DAddItems _ None _ _ => (ds, DObsOk false)
+  | DAddProps manifest (Some items) tags pol =>
+      let '(ds', ok) := ds_add manifest (props_doc items) tags pol ds in (ds', DObsOk ok)
+  | DAddProps _ None _ _ => (ds, DObsOk false)
   | DTagged ts => (ds, ov_obs (ds_tagged ts ds))
   | DAsOne => (ds, ov_obs (ds_as_one ds))
   | DNamed name => (ds, DObsDoc (ds_named name ds))
